@@ -98,7 +98,7 @@ Print Assumptions C19_H_relex_refuted.
    filtered punctuation satisfies every hypothesis (class, supported matches), and the theorem's conclusion holds
    for the 15 tokens it writes *)
 Definition ex_case : rcase :=
-  (mkCase ["start"%string; "expr"%string; "add"%string; "PLUS"%string; "term"%string; "STAR"%string; "atom"%string; "NAME"%string; "LPAR"%string; "RPAR"%string; "neg"%string; "MINUS"%string; "call"%string; "_args"%string; "___args_star_0"%string; "COMMA"%string; "__IGNORE_0"%string] [(mkP 0 [(Nt 1)] None false); (mkP 1 [(Nt 1); (Tm 3 true); (Nt 4)] (Some 2) true); (mkP 1 [(Nt 4)] None true); (mkP 4 [(Nt 4); (Tm 5 true); (Nt 6)] None true); (mkP 4 [(Nt 6)] None true); (mkP 6 [(Tm 7 false)] None true); (mkP 6 [(Tm 8 true); (Nt 1); (Tm 9 true)] None true); (mkP 6 [(Tm 11 true); (Nt 6)] (Some 10) true); (mkP 6 [(Tm 7 false); (Tm 8 true); (Nt 13); (Tm 9 true)] (Some 12) true); (mkP 13 [(Nt 1); (Nt 14)] None false); (mkP 13 [(Nt 1)] None false); (mkP 14 [(Tm 15 true); (Nt 1)] None false); (mkP 14 [(Nt 14); (Tm 15 true); (Nt 1)] None false)] [(15, ","%string); (8, "("%string); (11, "-"%string); (3, "+"%string); (9, ")"%string); (5, "*"%string); (16, " "%string)] [(mkR 6 [(T 6)] [(Nt 6)]); (mkR 6 [(T 12)] [(Nt 12)]); (mkR 6 [(T 10)] [(Nt 10)]); (mkR 1 [(T 1)] [(Nt 1)]); (mkR 1 [(T 2)] [(Nt 2)]); (mkR 14 [(NT 1)] [(Tm 15 true); (Nt 1)]); (mkR 13 [(NT 1)] [(Nt 1)]); (mkR 6 [(NT 1)] [(Tm 8 true); (Nt 1); (Tm 9 true)]); (mkR 6 [(T 7)] [(Tm 7 false)]); (mkR 4 [(NT 6)] [(Nt 6)]); (mkR 4 [(T 4)] [(Nt 4)]); (mkR 1 [(NT 4)] [(Nt 4)]); (mkR 14 [(NT 14); (NT 1)] [(Nt 14); (Tm 15 true); (Nt 1)]); (mkR 13 [(NT 1); (NT 14)] [(Nt 1); (Nt 14)])] [[(mkR 0 [(NT 1)] [(Nt 1)])]; []; [(mkR 2 [(NT 1); (NT 4)] [(Nt 1); (Tm 3 true); (Nt 4)])]; []; [(mkR 4 [(NT 4); (NT 6)] [(Nt 4); (Tm 5 true); (Nt 6)])]; []; []; []; []; []; [(mkR 10 [(NT 6)] [(Tm 11 true); (Nt 6)])]; []; [(mkR 12 [(T 7); (NT 13)] [(Tm 7 false); (Tm 8 true); (Nt 13); (Tm 9 true)])]; []; []; []; []] true true [((Node 0 [(Node 4 [(Node 12 [(Tok 7 "f"%string); (Tok 7 "a"%string); (Node 2 [(Tok 7 "b"%string); (Tok 7 "c"%string)])]); (Node 2 [(Tok 7 "d"%string); (Node 10 [(Tok 7 "e"%string)])])])]), [((Node 0 [(Node 4 [(Node 12 [(Tok 7 "f"%string); (Tok 7 "a"%string); (Node 2 [(Tok 7 "b"%string); (Tok 7 "c"%string)])]); (Node 2 [(Tok 7 "d"%string); (Node 10 [(Tok 7 "e"%string)])])])]), (UNode (mkR 0 [(NT 1)] [(Nt 1)]) [(UNode (mkR 1 [(NT 4)] [(Nt 4)]) [(UNode (mkR 4 [(T 4)] [(Nt 4)]) [(ULeaf (Node 4 [(Node 12 [(Tok 7 "f"%string); (Tok 7 "a"%string); (Node 2 [(Tok 7 "b"%string); (Tok 7 "c"%string)])]); (Node 2 [(Tok 7 "d"%string); (Node 10 [(Tok 7 "e"%string)])])]))])])]), [(WChild (Node 4 [(Node 12 [(Tok 7 "f"%string); (Tok 7 "a"%string); (Node 2 [(Tok 7 "b"%string); (Tok 7 "c"%string)])]); (Node 2 [(Tok 7 "d"%string); (Node 10 [(Tok 7 "e"%string)])])]))]); ((Node 4 [(Node 12 [(Tok 7 "f"%string); (Tok 7 "a"%string); (Node 2 [(Tok 7 "b"%string); (Tok 7 "c"%string)])]); (Node 2 [(Tok 7 "d"%string); (Node 10 [(Tok 7 "e"%string)])])]), (UNode (mkR 4 [(NT 4); (NT 6)] [(Nt 4); (Tm 5 true); (Nt 6)]) [(UNode (mkR 4 [(NT 6)] [(Nt 6)]) [(UNode (mkR 6 [(T 12)] [(Nt 12)]) [(ULeaf (Node 12 [(Tok 7 "f"%string); (Tok 7 "a"%string); (Node 2 [(Tok 7 "b"%string); (Tok 7 "c"%string)])]))])]); (UNode (mkR 6 [(NT 1)] [(Tm 8 true); (Nt 1); (Tm 9 true)]) [(UNode (mkR 1 [(T 2)] [(Nt 2)]) [(ULeaf (Node 2 [(Tok 7 "d"%string); (Node 10 [(Tok 7 "e"%string)])]))])])]), [(WChild (Node 12 [(Tok 7 "f"%string); (Tok 7 "a"%string); (Node 2 [(Tok 7 "b"%string); (Tok 7 "c"%string)])])); (WStr 0 "*"%string); (WStr 0 "("%string); (WChild (Node 2 [(Tok 7 "d"%string); (Node 10 [(Tok 7 "e"%string)])])); (WStr 0 ")"%string)]); ((Node 12 [(Tok 7 "f"%string); (Tok 7 "a"%string); (Node 2 [(Tok 7 "b"%string); (Tok 7 "c"%string)])]), (UNode (mkR 12 [(T 7); (NT 13)] [(Tm 7 false); (Tm 8 true); (Nt 13); (Tm 9 true)]) [(ULeaf (Tok 7 "f"%string)); (UNode (mkR 13 [(NT 1); (NT 14)] [(Nt 1); (Nt 14)]) [(UNode (mkR 1 [(NT 4)] [(Nt 4)]) [(UNode (mkR 4 [(NT 6)] [(Nt 6)]) [(UNode (mkR 6 [(T 7)] [(Tm 7 false)]) [(ULeaf (Tok 7 "a"%string))])])]); (UNode (mkR 14 [(NT 1)] [(Tm 15 true); (Nt 1)]) [(UNode (mkR 1 [(T 2)] [(Nt 2)]) [(ULeaf (Node 2 [(Tok 7 "b"%string); (Tok 7 "c"%string)]))])])])]), [(WChild (Tok 7 "f"%string)); (WStr 0 "("%string); (WChild (Tok 7 "a"%string)); (WStr 0 ","%string); (WChild (Node 2 [(Tok 7 "b"%string); (Tok 7 "c"%string)])); (WStr 0 ")"%string)]); ((Node 2 [(Tok 7 "b"%string); (Tok 7 "c"%string)]), (UNode (mkR 2 [(NT 1); (NT 4)] [(Nt 1); (Tm 3 true); (Nt 4)]) [(UNode (mkR 1 [(NT 4)] [(Nt 4)]) [(UNode (mkR 4 [(NT 6)] [(Nt 6)]) [(UNode (mkR 6 [(T 7)] [(Tm 7 false)]) [(ULeaf (Tok 7 "b"%string))])])]); (UNode (mkR 4 [(NT 6)] [(Nt 6)]) [(UNode (mkR 6 [(T 7)] [(Tm 7 false)]) [(ULeaf (Tok 7 "c"%string))])])]), [(WChild (Tok 7 "b"%string)); (WStr 0 "+"%string); (WChild (Tok 7 "c"%string))]); ((Node 2 [(Tok 7 "d"%string); (Node 10 [(Tok 7 "e"%string)])]), (UNode (mkR 2 [(NT 1); (NT 4)] [(Nt 1); (Tm 3 true); (Nt 4)]) [(UNode (mkR 1 [(NT 4)] [(Nt 4)]) [(UNode (mkR 4 [(NT 6)] [(Nt 6)]) [(UNode (mkR 6 [(T 7)] [(Tm 7 false)]) [(ULeaf (Tok 7 "d"%string))])])]); (UNode (mkR 4 [(NT 6)] [(Nt 6)]) [(UNode (mkR 6 [(T 10)] [(Nt 10)]) [(ULeaf (Node 10 [(Tok 7 "e"%string)]))])])]), [(WChild (Tok 7 "d"%string)); (WStr 0 "+"%string); (WChild (Node 10 [(Tok 7 "e"%string)]))]); ((Node 10 [(Tok 7 "e"%string)]), (UNode (mkR 10 [(NT 6)] [(Tm 11 true); (Nt 6)]) [(UNode (mkR 6 [(T 7)] [(Tm 7 false)]) [(ULeaf (Tok 7 "e"%string))])]), [(WStr 0 "-"%string); (WChild (Tok 7 "e"%string))])], ["f"%string; "("%string; "a"%string; ","%string; "b"%string; "+"%string; "c"%string; ")"%string; "*"%string; "("%string; "d"%string; "+"%string; "-"%string; "e"%string; ")"%string], "f(a,b+c)*(d+-e)"%string)]).
+  (mkCase ["start"%string; "expr"%string; "add"%string; "PLUS"%string; "term"%string; "STAR"%string; "atom"%string; "NAME"%string; "LPAR"%string; "RPAR"%string; "neg"%string; "MINUS"%string; "call"%string; "_args"%string; "___args_star_0"%string; "COMMA"%string; "__IGNORE_0"%string] [(mkP 0 [(Nt 1)] None false); (mkP 1 [(Nt 1); (Tm 3 true); (Nt 4)] (Some 2) true); (mkP 1 [(Nt 4)] None true); (mkP 4 [(Nt 4); (Tm 5 true); (Nt 6)] None true); (mkP 4 [(Nt 6)] None true); (mkP 6 [(Tm 7 false)] None true); (mkP 6 [(Tm 8 true); (Nt 1); (Tm 9 true)] None true); (mkP 6 [(Tm 11 true); (Nt 6)] (Some 10) true); (mkP 6 [(Tm 7 false); (Tm 8 true); (Nt 13); (Tm 9 true)] (Some 12) true); (mkP 13 [(Nt 1); (Nt 14)] None false); (mkP 13 [(Nt 1)] None false); (mkP 14 [(Tm 15 true); (Nt 1)] None false); (mkP 14 [(Nt 14); (Tm 15 true); (Nt 1)] None false)] [(15, ","%string); (8, "("%string); (11, "-"%string); (3, "+"%string); (9, ")"%string); (5, "*"%string); (16, " "%string)] [(mkR 6 [(T 6)] [(Nt 6)]); (mkR 6 [(T 12)] [(Nt 12)]); (mkR 6 [(T 10)] [(Nt 10)]); (mkR 1 [(T 1)] [(Nt 1)]); (mkR 1 [(T 2)] [(Nt 2)]); (mkR 14 [(NT 1)] [(Tm 15 true); (Nt 1)]); (mkR 13 [(NT 1)] [(Nt 1)]); (mkR 6 [(NT 1)] [(Tm 8 true); (Nt 1); (Tm 9 true)]); (mkR 6 [(T 7)] [(Tm 7 false)]); (mkR 4 [(NT 6)] [(Nt 6)]); (mkR 4 [(T 4)] [(Nt 4)]); (mkR 1 [(NT 4)] [(Nt 4)]); (mkR 14 [(NT 14); (NT 1)] [(Nt 14); (Tm 15 true); (Nt 1)]); (mkR 13 [(NT 1); (NT 14)] [(Nt 1); (Nt 14)])] [[(mkR 0 [(NT 1)] [(Nt 1)])]; []; [(mkR 2 [(NT 1); (NT 4)] [(Nt 1); (Tm 3 true); (Nt 4)])]; []; [(mkR 4 [(NT 4); (NT 6)] [(Nt 4); (Tm 5 true); (Nt 6)])]; []; []; []; []; []; [(mkR 10 [(NT 6)] [(Tm 11 true); (Nt 6)])]; []; [(mkR 12 [(T 7); (NT 13)] [(Tm 7 false); (Tm 8 true); (Nt 13); (Tm 9 true)])]; []; []; []; []] true true [((Node 0 [(Node 4 [(Node 12 [(Tok 7 "f"%string); (Tok 7 "a"%string); (Node 2 [(Tok 7 "b"%string); (Tok 7 "c"%string)])]); (Node 2 [(Tok 7 "d"%string); (Node 10 [(Tok 7 "e"%string)])])])]), [(0, (CU 0 [(Nt 1)] [(CU 1 [(Nt 4)] [(CU 4 [(Nt 4)] [(CL 0)])])]), [(CC 0)]); (1, (CU 4 [(Nt 4); (Tm 5 true); (Nt 6)] [(CU 4 [(Nt 6)] [(CU 6 [(Nt 12)] [(CL 0)])]); (CU 6 [(Tm 8 true); (Nt 1); (Tm 9 true)] [(CU 1 [(Nt 2)] [(CL 1)])])]), [(CC 0); (CS "*"%string); (CS "("%string); (CC 1); (CS ")"%string)]); (2, (CU 12 [(Tm 7 false); (Tm 8 true); (Nt 13); (Tm 9 true)] [(CL 0); (CU 13 [(Nt 1); (Nt 14)] [(CU 1 [(Nt 4)] [(CU 4 [(Nt 6)] [(CU 6 [(Tm 7 false)] [(CL 1)])])]); (CU 14 [(Tm 15 true); (Nt 1)] [(CU 1 [(Nt 2)] [(CL 2)])])])]), [(CC 0); (CS "("%string); (CC 1); (CS ","%string); (CC 2); (CS ")"%string)]); (5, (CU 2 [(Nt 1); (Tm 3 true); (Nt 4)] [(CU 1 [(Nt 4)] [(CU 4 [(Nt 6)] [(CU 6 [(Tm 7 false)] [(CL 0)])])]); (CU 4 [(Nt 6)] [(CU 6 [(Tm 7 false)] [(CL 1)])])]), [(CC 0); (CS "+"%string); (CC 1)]); (8, (CU 2 [(Nt 1); (Tm 3 true); (Nt 4)] [(CU 1 [(Nt 4)] [(CU 4 [(Nt 6)] [(CU 6 [(Tm 7 false)] [(CL 0)])])]); (CU 4 [(Nt 6)] [(CU 6 [(Nt 10)] [(CL 1)])])]), [(CC 0); (CS "+"%string); (CC 1)]); (10, (CU 10 [(Tm 11 true); (Nt 6)] [(CU 6 [(Tm 7 false)] [(CL 0)])]), [(CS "-"%string); (CC 0)])], ["f"%string; "("%string; "a"%string; ","%string; "b"%string; "+"%string; "c"%string; ")"%string; "*"%string; "("%string; "d"%string; "+"%string; "-"%string; "e"%string; ")"%string], "f(a,b+c)*(d+-e)"%string)]).
 
 Example C19_example :
   let us := uscore_of (c_names ex_case) in
